@@ -288,7 +288,7 @@ def run_job(h, pool, harness_dir, logdir, extra=None):
 
 def schedule(jobs, pool, harness_dir, logdir):
     """Run jobs in parallel under the memory budget. jobs: list of harness dicts."""
-    pending = sorted(jobs, key=lambda h: -h.get('est', 60))
+    pending = sorted(jobs, key=lambda h: (MEM_CLASS[h.get('mem', 'S')], h.get('est', 60)) if os.environ.get('VERIF_ORDER') == 'asc' else -h.get('est', 60))
     running = []  # (thread, h)
     results = []
     lock = threading.Lock()
